@@ -4,7 +4,7 @@
    initial notifier population satisfying [wfH] (stored reference counts positive, at most one user
    notifier per identity on a list — both are invariants, [wf_is_invariant]) and every history. *)
 From Coq Require Import List Arith Bool PeanoNat Permutation.
-From TV Require Import C09.Model C09.Law C09.Proofs C09.LawProofs.
+From TV Require Import C09.Model C09.Dyn C09.Law C09.Proofs C09.LawProofs C09.DynProofs.
 Import ListNotations.
 
 Theorem wf_is_invariant : forall h ops s tr s',
@@ -124,6 +124,21 @@ Print Assumptions checked_law_is_the_law.
 Theorem correspondence_heaps_are_wf : forall ds, heap_wf (TV.C09.Corr.heap_of ds).
 Proof. exact heap_of_wf. Qed.
 Print Assumptions correspondence_heaps_are_wf.
+
+(* Histories that also mutate the object graph (Dyn.v: Instance links reassigned, containers mutated in
+   place, maintainers re-hooking the downstream graph): the well-formedness invariant survives, so the
+   per-step theorems above (stated for any heap and any well-formed state) apply at every registration
+   step; in particular failure atomicity holds at any point of any such history. *)
+Theorem wf_is_invariant_under_graph_mutation : forall ops d tr d',
+  wfH (st_hooks (d_st d)) -> drun d ops = (tr, d') -> wfH (st_hooks (d_st d')).
+Proof. exact drun_wf. Qed.
+Print Assumptions wf_is_invariant_under_graph_mutation.
+
+Theorem failure_atomic_after_graph_mutations : forall ops d tr d1 o d2 ob,
+  wfH (st_hooks (d_st d)) -> drun d ops = (tr, d1) -> dstep d1 (DStatic o) = (d2, ob) -> o_out ob <> None ->
+  forall o', Permutation (st_hooks (d_st d2) o') (st_hooks (d_st d1) o').
+Proof. exact failure_atomic_dyn. Qed.
+Print Assumptions failure_atomic_after_graph_mutations.
 
 (* ---------- non-vacuity ---------- *)
 (* object 0 has kids = list 5 = [1; 2; 3], f = 1, g = 2; objects 1, 2 have `value` (field 2), object 3
